@@ -149,6 +149,12 @@ fn algebra(case: &mut Case) -> Result<(), String> {
     let mut t = ma.clone();
     t -= s;
     cmp(&t, &map1(&a, |x| x - s), r, k, "A -= s")?;
+    // the same object on both sides
+    cmp(&(&ma + &ma), &zip2(&a, &a, |x, y| x + y), r, k, "&A + &A")?;
+    cmp(&(&ma - &ma), &zip2(&a, &a, |x, y| x - y), r, k, "&A - &A")?;
+    if r == k {
+        cmp(&(&ma * &ma), &refla::matmul(&a, &a, z, k), r, k, "&A * &A")?;
+    }
     // operands of the by-reference forms are untouched
     cmp(&ma, &a, r, k, "operand A after by-reference operators")?;
     cmp(&md, &d, r, k, "operand D after by-reference operators")?;
@@ -539,6 +545,21 @@ fn norms(case: &mut Case) -> Result<(), String> {
     let got = m.norm_frob();
     if !((got - reff).abs() <= 4.0 * EPS * (r * c + 4) as f64 * reff) {
         return Err(format!("norm_frob = {}, expected {}", got, reff));
+    }
+    // exactly representable quotients: (M * s) / s gives M back, in every form
+    {
+        let d = [3.0, 7.0, 49.0, 10.0, 6.0][case.src.usize_below(5)];
+        let ms = &m * d;
+        let back = &ms / d;
+        let mut back2 = ms.clone();
+        back2 /= d;
+        for i in 0..r {
+            for j in 0..c {
+                if back[(i, j)] != a[i][j] || back2[(i, j)] != a[i][j] || (ms.clone() / d)[(i, j)] != a[i][j] {
+                    return Err(format!("(M * {}) / {} at ({},{}) = {:e} / {:e}, expected {:e}", d, d, i, j, back[(i, j)], back2[(i, j)], a[i][j]));
+                }
+            }
+        }
     }
     // f64 * Matrix
     let s = case.src.small_int(9) as f64;
